@@ -183,6 +183,19 @@ def run(ctx):
                 if k >= N:
                     ctx.check(abs(float(ymin) - g['minv']) < 1e-9 and abs(float(ymax) - g['maxv']) < 1e-9, 'optima_qtt:exact',
                               'optima_qtt(k=%d): (min, max) = (%s, %s), true (%s, %s)' % (k, ymin, ymax, g['minv'], g['maxv']), case=case)
+            # the accuracy of the quantisation is an absolute threshold that the caller may set as small as the data needs:
+            # one core times 2^-60 (entries ~1e-18) with e = 1e-100 / 0
+            if k >= N and len(n) >= 2:
+                jq = int(rng.integers(len(n)))
+                Yq = [G * (2.0 ** -60 if q_ == jq else 1.) for q_, G in enumerate(Y)]
+                for eq in (1e-100, 0.):
+                    try:
+                        imin, ymin, imax, ymax = teneva.optima_qtt(Yq, k, e=eq)
+                        okq = abs(float(ymin) * 2.0 ** 60 - g['minv']) < 1e-9 and abs(float(ymax) * 2.0 ** 60 - g['maxv']) < 1e-9
+                        whyq = '(min, max) * 2^60 = (%s, %s), true (%s, %s)' % (float(ymin) * 2.0 ** 60, float(ymax) * 2.0 ** 60, g['minv'], g['maxv'])
+                    except Exception as ex:
+                        okq, whyq = False, 'raised %s: %s' % (type(ex).__name__, ex)
+                    ctx.check(okq, 'optima_qtt:exact', 'optima_qtt(k=%d, e=%g) on the tensor with core %d times 2^-60: %s' % (k, eq, jq, whyq), case=case)
     # --- rank-1 float tensors, small k: the maximum-modulus side must be exact; the other extreme is a known finding
     R1_EXAMPLE = [[1.3889799748383085, 0.35145507618731386, -0.47433298683443925, -1.9442649759855442],
                   [-1.3077531969011476, 1.0868307847683634, -0.050604063111342405],
